@@ -132,12 +132,12 @@ Theorem emit_tree_targets sm root :
   Forall (fun a => exists pre post, output_of w = pre ++ sa_text a ++ post /\ pos_of pre = (sa_tline a, sa_tcol a)) (w_adds w).
 Proof.
   cbv zeta. unfold emit_tree.
-  pose proof (emit_node_inv J J_wr J_set_local J_after_var J_reset J_fail
+  pose proof (emit_node_inv J J_wr J_set_local J_after_var True (fun _ => J_reset) J_fail
                 (fun sm t st => J_write_add sm (t_lit t) t st)
                 (fun sm t st => J_write_add sm (go_trim_space (t_lit t)) t st)
                 (fun sm a st => J_write_add sm (a_value a) (a_origin a) st)
                 (fun sm t st => J_write_indent_add sm (t_lit t) t st)
-                sm root None false init_st J_init) as H.
+                sm root (goht_ok_True root) None false init_st J_init) as H.
   exact H.
 Qed.
 
